@@ -12,6 +12,7 @@ pub enum Class {
     ExitGroup,
     GetRandom,
     Fcntl,
+    Clock, // time queries: answered from the simulated clock (the vDSO is switched off at exec so that they are system calls)
 }
 
 /// How to find the object(s) a call names.
@@ -93,7 +94,7 @@ pub fn lookup(nr: i64) -> Sc {
         93 => ("fchown", Visible, Fd(0)),
         94 => ("lchown", Visible, Path(0)),
         95 => ("umask", Local, None),
-        96 => ("gettimeofday", Local, None),
+        96 => ("gettimeofday", Clock, None),
         97 => ("getrlimit", Local, None),
         99 => ("sysinfo", Local, None),
         102 => ("getuid", Local, None),
@@ -124,7 +125,8 @@ pub fn lookup(nr: i64) -> Sc {
         217 => ("getdents64", Visible, Fd(0)),
         218 => ("set_tid_address", Local, None),
         221 => ("fadvise64", Visible, Fd(0)),
-        228 => ("clock_gettime", Local, None),
+        201 => ("time", Clock, None),
+        228 => ("clock_gettime", Clock, None),
         229 => ("clock_getres", Local, None),
         230 => ("clock_nanosleep", Sleep, None),
         231 => ("exit_group", ExitGroup, None),
